@@ -63,6 +63,43 @@ Proof.
   - destruct (k =? h); eauto.
 Qed.
 
+(* ------------------------------------------------------------------ first outcome wins *)
+Record same_but_outcome (s s' : state) : Prop := {
+  sbo_plan : plan s' = plan s; sbo_cons : consumed s' = consumed s; sbo_pools : pools s' = pools s;
+  sbo_cl : msg_cl s' = msg_cl s; sbo_retries : retries s' = retries s; sbo_ncons : nconsult s' = nconsult s;
+  sbo_errors : errors s' = errors s; sbo_queue : queue s' = queue s; sbo_att : attempts s' = attempts s;
+  sbo_armed : spec_armed s' = false; sbo_left : spec_left s' = spec_left s; sbo_ks : conn_ks s' = conn_ks s
+}.
+
+Lemma fail_with_same s x : same_but_outcome s (fail_with s x).
+Proof. unfold fail_with. destruct (completed s); constructor; reflexivity. Qed.
+
+Lemma finish_with_same s r : same_but_outcome s (finish_with s r).
+Proof. unfold finish_with. destruct (completed s); constructor; reflexivity. Qed.
+
+Lemma fail_with_exc s x : fin_exc (fail_with s x) = (if completed s then fin_exc s else Some x)
+                          /\ fin_res (fail_with s x) = fin_res s.
+Proof. unfold fail_with. destruct (completed s); split; reflexivity. Qed.
+
+Lemma finish_with_res s r : fin_res (finish_with s r) = (if completed s then fin_res s else Some r)
+                            /\ fin_exc (finish_with s r) = fin_exc s.
+Proof. unfold finish_with. destruct (completed s); split; reflexivity. Qed.
+
+Lemma q_fw s x : queue (fail_with s x) = queue s.
+Proof. apply fail_with_same. Qed.
+Lemma q_fi s r : queue (finish_with s r) = queue s.
+Proof. apply finish_with_same. Qed.
+Ltac qnorm := rewrite ?q_fw, ?q_fi in *.
+
+Lemma not_completed s : fin_res s = None -> fin_exc s = None -> completed s = false.
+Proof. unfold completed. intros -> ->. reflexivity. Qed.
+
+Lemma fail_with_fresh s x : fin_res s = None -> fin_exc s = None -> fail_with s x = set_exc s x.
+Proof. intros R E. unfold fail_with. rewrite (not_completed s R E). reflexivity. Qed.
+
+Lemma finish_with_fresh s r : fin_res s = None -> fin_exc s = None -> finish_with s r = set_res s r.
+Proof. intros R E. unfold finish_with. rewrite (not_completed s R E). reflexivity. Qed.
+
 (* ------------------------------------------------------------------ send_request / walk *)
 Definition plan_sends (ev : list event) : list host :=
   flat_map (fun e => match e with Sent h _ CPlan => [h] | _ => [] end) ev.
@@ -92,7 +129,7 @@ Inductive walked (s : state) (p : list host) (b : bool) (s' : state) (ev : list 
     (Hcons : consumed s' = consumed s ++ p)
     (Hev : ev = map (fun x => ErrSet x (match reason (pool_of s x) with Some e => e | None => EDown end)) p)
     (Hatt : attempts s' = attempts s)
-    (Hexc : fin_exc s' = if b then Some (XNoHost (errors s')) else fin_exc s)
+    (Hexc : fin_exc s' = if b && negb (completed s) then Some (XNoHost (errors s')) else fin_exc s)
     (Harm : spec_armed s' = if b then false else spec_armed s).
 
 (* fields a walk never touches, and how it changes the error map *)
@@ -114,9 +151,16 @@ Lemma walk_walked : forall p s b s' ev, walk s p b = (s', ev) -> walked s p b s'
 Proof.
   induction p as [|h rest IH]; intros s b s' ev H.
   - cbn in H. inversion H; subst; clear H.
-    apply walked_exhausted; try reflexivity; try (destruct b; reflexivity).
+    pose proof (fail_with_same s (XNoHost (errors s))) as F.
+    pose proof (fail_with_exc s (XNoHost (errors s))) as [Fe Fr].
+    apply walked_exhausted.
     + constructor.
-    + rewrite app_nil_r. destruct b; reflexivity.
+    + destruct b; [apply F|reflexivity].
+    + rewrite app_nil_r. destruct b; [apply F|reflexivity].
+    + reflexivity.
+    + destruct b; [apply F|reflexivity].
+    + destruct b; cbn [andb]; [|reflexivity]. rewrite Fe, (sbo_errors _ _ F). destruct (completed s); reflexivity.
+    + destruct b; [apply F|reflexivity].
   - cbn [walk] in H. rewrite query_eq in H.
     assert (Hpo : pool_of (take_host s h rest) h = pool_of s h) by reflexivity.
     rewrite Hpo in H.
@@ -155,7 +199,9 @@ Qed.
 Lemma walk_frame_ok : forall p s b s' ev, walk s p b = (s', ev) -> walk_frame s s'.
 Proof.
   induction p as [|h rest IH]; intros s b s' ev H.
-  - cbn in H. inversion H; subst. destruct b; constructor; reflexivity.
+  - cbn in H. inversion H; subst. destruct b; [|constructor; reflexivity].
+    pose proof (fail_with_same s (XNoHost (errors s))) as F. pose proof (fail_with_exc s (XNoHost (errors s))) as [_ Fr].
+    destruct F. constructor; assumption.
   - cbn [walk] in H. rewrite query_eq in H.
     destruct (reason (pool_of (take_host s h rest) h)) as [e|].
     + destruct (walk (set_err (take_host s h rest) h e) rest b) as [s2 ev2] eqn:W.
@@ -169,7 +215,7 @@ Lemma walk_errors_keys : forall p s b s' ev, walk s p b = (s', ev) ->
                                                                          (filter (fun e => match e with ErrSet _ _ => true | _ => false end) ev)).
 Proof.
   induction p as [|h rest IH]; intros s b s' ev H x.
-  - cbn in H. inversion H; subst. destruct b; cbn; tauto.
+  - cbn in H. inversion H; subst. destruct b; [rewrite (sbo_errors _ _ (fail_with_same s (XNoHost (errors s))))|]; cbn; tauto.
   - cbn [walk] in H. rewrite query_eq in H.
     destruct (reason (pool_of (take_host s h rest) h)) as [e|].
     + destruct (walk (set_err (take_host s h rest) h e) rest b) as [s2 ev2] eqn:W.
@@ -196,7 +242,7 @@ Lemma walk_lookup_frame : forall p s b s' ev x, walk s p b = (s', ev) -> errset_
   lookup (errors s') x = lookup (errors s) x.
 Proof.
   induction p as [|h rest IH]; intros s b s' ev x H Hn.
-  - cbn in H. inversion H; subst. destruct b; reflexivity.
+  - cbn in H. inversion H; subst. destruct b; [rewrite (sbo_errors _ _ (fail_with_same s (XNoHost (errors s))))|]; reflexivity.
   - cbn [walk] in H. rewrite query_eq in H.
     destruct (reason (pool_of (take_host s h rest) h)) as [e|].
     + destruct (walk (set_err (take_host s h rest) h e) rest b) as [s2 ev2] eqn:W.
